@@ -793,24 +793,26 @@ Definition combiner_head (w : world) (p n : nat) : world * yld :=
   (setpc (upd_proc w p (fun x => x <| paux := t |>)) p 2, YEvent t).
 
 (* reserve qty tokens on every ingredient edge *)
+Fixpoint comb_rep (e p k : nat) (j : nat) (a : world * list nat * list nat) : world * list nat * list nat :=
+  match j with
+  | O => a
+  | S j' => let '(w0, ts, ix) := a in
+            let '(w1, t) := e_reserve_get w0 e p in comb_rep e p k j' (w1, ts ++ [t], ix ++ [k])
+  end.
+
+Fixpoint comb_go (recipe : list nat) (p : nat) (k : nat) (es : list nat) (acc : world * list nat * list nat)
+  : option (world * list nat * list nat) :=
+  match es with
+  | [] => Some acc
+  | e :: rest =>
+      match nth_error recipe k with
+      | None => None
+      | Some q => comb_go recipe p (S k) rest (comb_rep e p k q acc)
+      end
+  end.
+
 Definition combiner_reserve (w : world) (p n : nat) : option (world * list nat * list nat) :=
-  let nd := get_node w n in
-  (fix go (k : nat) (es : list nat) (acc : world * list nat * list nat) : option (world * list nat * list nat) :=
-     match es with
-     | [] => Some acc
-     | e :: rest =>
-         match nth_error (nrecipe nd) k with
-         | None => None
-         | Some q =>
-             let acc' := (fix rep (j : nat) (a : world * list nat * list nat) :=
-                            match j with
-                            | O => a
-                            | S j' => let '(w0, ts, ix) := a in
-                                      let '(w1, t) := e_reserve_get w0 e p in rep j' (w1, ts ++ [t], ix ++ [k])
-                            end) q acc in
-             go (S k) rest acc'
-         end
-     end) 1%nat (tl (nins nd)) (w, [], []).
+  let nd := get_node w n in comb_go (nrecipe nd) p 1%nat (tl (nins nd)) (w, [], []).
 
 Definition any_triggered (w : world) (toks : list nat) : bool := existsb (fun t => e_trig (get_ev (wk w) t)) toks.
 
